@@ -348,6 +348,15 @@ def _into(m, a, c):
         return v
     if isinstance(v, Term):
         return Term("into", v, targs[1] if len(targs) > 1 else "?")
+    if len(targs) >= 2:
+        # a crate-local `impl From<T> for U`
+        from .tystr import type_head
+        src, dst = type_head(targs[0]), type_head(targs[1])
+        for imp in m.facts.impls_of(trait="std::convert::From", self_adt=dst):
+            if src.split("::")[-1] in (imp.get("trait_str") or ""):
+                for it in imp["items"]:
+                    if it["name"] == "from" and it["path"] in m.facts.bodies:
+                        return m.call_path(it["path"], [a[0]])
     return NOT_HANDLED
 
 
@@ -680,7 +689,21 @@ def _vec_len(m, a, c):
     v = deref(a[0])
     if isinstance(v, Term):
         return Term("len", v)
+    if hasattr(v, "length") and isinstance(getattr(v, "length"), int):
+        return v.length          # opaque byte-string token of a harness
     return len(items_of(v))
+
+
+@reg("std::vec::Vec::<T, A>::split_off")
+def _vec_split_off(m, a, c):
+    v, at = deref(a[0]), deref(a[1])
+    if not isinstance(v, PyVec) or not isinstance(at, int):
+        raise Unsupported("split_off(%r, %r)" % (v, at))
+    if at > len(v.items):
+        raise Panic("split_off: at > len")
+    tail = v.items[at:]
+    del v.items[at:]
+    return PyVec(tail)
 
 
 @reg("std::vec::Vec::<T, A>::is_empty", "core::slice::<impl [T]>::is_empty")
@@ -2026,3 +2049,24 @@ for _nm in ["to_ascii_lowercase", "to_ascii_uppercase", "is_ascii", "is_ascii_di
             "is_ascii_whitespace"]:
     TABLE["std::char::methods::<impl char>::" + _nm] = _ascii_fn(_nm)
     TABLE["core::num::<impl u8>::" + _nm] = _ascii_fn(_nm)
+
+
+@reg("std::array::<impl std::convert::TryFrom<&[T]> for [T; N]>::try_from",
+     "std::array::<impl std::convert::TryFrom<&[T]> for &[T; N]>::try_from")
+def _array_try_from(m, a, c):
+    v = deref(a[0])
+    n = None
+    for x in (c.get("cargs") or []):
+        try:
+            n = int(str(x).split("_")[0])
+        except ValueError:
+            pass
+    if hasattr(v, "length") and isinstance(getattr(v, "length"), int):
+        if n is None or v.length == n:
+            return ok(v)
+        return err(Term("TryFromSliceError"))
+    if isinstance(v, PyVec):
+        if n is None or len(v.items) == n:
+            return ok(v)
+        return err(Term("TryFromSliceError"))
+    return NOT_HANDLED
